@@ -1235,3 +1235,10 @@ def shrink(case, fails):
             else: break
         except Exception: break
     return cur
+
+
+def translate(repo, gen_dir):
+    """regenerate Gen/C05_Kernel.v (kernel expressions of every latentfn, evalfn, trans.py, _calc_uc, _calc_embv and the EMBV
+    matrix factory) from the current source; fail closed"""
+    from translate import c05_kernel
+    return [c05_kernel.translate(repo, gen_dir)]
